@@ -179,3 +179,70 @@ def rule_pqr_reader(prog, rep, rid, title="pdb2pqr's own PQR reader turns every 
               f"fields differ (read, written): {bad}", where)
     r.info["model_lines"] = len(lines)
     r.info["methods_interpreted"] = sorted(set(run.calls))
+
+
+def rule_ligand_block_model(prog, rep, rid):
+    """The ligand block of non_trivial is evaluated on a model complex: a peptide residue, the ligand (one of its atoms is also
+    known to the force field), a water whose hydrogen names occur in the MOL2 file, and an ion that follows the ligand."""
+    from ..guards import Flow, Obj
+    from ..objinterp import ObjRunner
+    r = rep.rule(rid, "model complex: every ligand atom is written exactly once with the MOL2 parameters; no other atom is touched", floor=4)
+    nt = prog.func("main.py", "non_trivial")
+    blk = None
+    for st in nt.node.body:
+        if isinstance(st, ast.If) and "ligand" in U(st.test) and any(U(c.func).endswith("assign_parameters") for c in calls_in(st)):
+            blk = st
+    if blk is None:
+        raise AnalysisError("non_trivial: the ligand block (if ... ligand ...: ligand.assign_parameters()) was not found")
+    where = f"pdb2pqr/main.py:{blk.lineno} (non_trivial)"
+    bind = [s for s in nt.node.body if isinstance(s, ast.Assign) and isinstance(s.value, ast.Call) and U(s.value.func).endswith(".apply_force_field")]
+    if not bind or not isinstance(bind[0].targets[0], ast.Tuple):
+        raise AnalysisError("non_trivial: 'hits, misses = biomolecule.apply_force_field(...)' not found")
+    hit, miss = (U(e) for e in bind[0].targets[0].elts)
+
+    def res(cls, name, num, rectype, atoms):
+        robj = Obj({"__class__": cls, "name": name, "res_seq": num, "atoms": [], "chain_id": "A"})
+        for an, q in atoms:
+            robj["atoms"].append(Obj({"__class__": "Atom", "name": an, "type": rectype, "residue": robj, "ffcharge": q, "radius": 1.0 if q is not None else None,
+                                      "__id__": f"{name}{num}:{an}"}))
+        return robj
+
+    ala = res("ALA", "ALA", 1, "ATOM", [("N", -0.4), ("CA", 0.1), ("C", 0.6), ("O", -0.5), ("H1", 0.2)])
+    lig = res("Residue", "LIG", 2, "HETATM", [("C1", 0.33), ("O1", None), ("H1", None)])   # C1 is also known to the force field
+    wat = res("WAT", "HOH", 3, "HETATM", [("O", -0.834), ("H1", 0.417), ("H2", 0.417)])
+    ion = res("Residue", "ZN", 4, "HETATM", [("ZN", None)])
+    mol2 = {"C1": Obj({"charge": -0.10, "radius": 1.87}), "O1": Obj({"charge": -0.55, "radius": 1.76}), "H1": Obj({"charge": 0.65, "radius": 1.10})}
+    ligand = Obj({"__class__": "Mol2Molecule", "atoms": mol2})
+    hits = [a for x in (ala, lig, wat, ion) for a in x["atoms"] if a["ffcharge"] is not None]
+    misses = [a for x in (ala, lig, wat, ion) for a in x["atoms"] if a["ffcharge"] is None]
+    before = {a["__id__"]: (a["ffcharge"], a["radius"]) for x in (ala, wat, ion) for a in x["atoms"]}
+
+    def extra(runner, interp, call, args, kw):
+        if U(call.func).endswith("assign_parameters"):
+            return None
+        return NotImplemented
+
+    run = ObjRunner(prog, "main.py", extra_hook=extra)
+    env = {"args": Obj({"ligand": "lig.mol2"}), "ligand": ligand, "biomolecule": Obj({"__class__": "Biomolecule", "residues": [ala, lig, wat, ion]}),
+           hit: hits, miss: misses}
+    try:
+        out = run.run_block(nt, [blk], env)
+    except Flow as fl:
+        r.bad("ligand|runs", f"the ligand block stops with {fl.value} on the model complex", where)
+        return
+    hits2, misses2 = out[hit], out[miss]
+    counts = {a["__id__"]: sum(1 for x in hits2 if x is a) for a in lig["atoms"]}
+    r.add("ligand|written-once", all(v == 1 for v in counts.values()),
+          f"occurrences of the ligand atoms in the printed list: {counts} (an ion follows the ligand in the chain; C1 is also known to the "
+          "force field)" + ("" if all(v == 1 for v in counts.values()) else " -- a ligand atom written twice doubles its charge in the PQR file"), where)
+    vals = {a["name"]: (a["ffcharge"], a["radius"]) for a in lig["atoms"]}
+    wantv = {n: (m["charge"], m["radius"]) for n, m in mol2.items()}
+    r.add("ligand|mol2-values", vals == wantv, f"ligand atoms carry {vals}; the MOL2 molecule gives {wantv}", where)
+    after = {a["__id__"]: (a["ffcharge"], a["radius"]) for x in (ala, wat, ion) for a in x["atoms"]}
+    changed = {k: (before[k], after[k]) for k in before if before[k] != after[k]}
+    r.add("ligand|others-untouched", not changed, "peptide, water (H1/H2 also occur in the MOL2 file) and ion keep their values" if not changed
+          else f"atoms outside the ligand changed: {changed}", where)
+    left = [a["__id__"] for a in misses2]
+    others_once = all(sum(1 for x in hits2 if x is a) == 1 for a in hits if a["residue"] is not lig)
+    r.add("ligand|lists-partition", left == ["ZN4:ZN"] and others_once and not any(a in misses2 for a in hits2),
+          f"reported as unassigned afterwards: {left} (only the ion has no parameters); every other atom is printed once", where)
